@@ -20,6 +20,10 @@ TEXT_GRAMMARS = {
     'eol': "start: 'a' $-> 'b' | 'a' ;\n",
     'multi_line': "start: {line}+ $ ;\nline: /[ab]+/ ;\n",
     'named_closure': "start: xs+={ 'a' | 'b' } y=[/c/] $ ;\n",
+    # joins/gathers in which BOTH the separator and the element can match empty: an iteration that consumes nothing must end the repetition (or fail), never loop
+    'nullable_sep_join': "start: /,?/%{ /a?/ } $ ;\n",
+    'nullable_sep_gather_plus': "start: ([',']).{ ['a'] }+ 'b' ;\n",
+    'nullable_sep_rule': "start: sep%{ item }+ $ ;\nsep: [','] ;\nitem: {'a'} ;\n",
 }
 CORE_QUICK = ['seq_eof', 'choice_order', 'join_plus', 'lookaheads', 'named_defaults', 'rule_list_nested', 'skipto', 'leftrec_basic', 'pattern_no_ws', 'constant']
 
@@ -74,6 +78,7 @@ def make_errors(spec):
                 return False, 'message-does-not-render', type(ex).__name__ + ': ' + str(ex)[:80]
         return True, ('fail' if pos > 0 else 'triv:fail0'), [pos]
 
+    body.native_deadline = 20.0          # one parse of a text of at most 4 code points
     body.explain = lambda args: f'grammar:\n{gtext}input={spec["input"]} parseinfo={pinfo} text={mktext(args)!r}'
     body.warm = [tuple(map(ord, w)) for w in ['', 'a', 'ab', 'a b', '1', 'a1', 'a\n', 'a\nb', '\r\n', 'a 1', 'a.', '1.5', 'tru', 'true', '-', 'a\rb', '\na', 'a,a', 'a+a', 'ab\n', ' \n '] if len(w) == n]
     return body
@@ -87,7 +92,7 @@ def obligations(tier, seed):
         variants = [('TextLines', False), ('Buffer', True)] if tier == 'quick' else [('TextLines', False), ('TextLines', True), ('Buffer', False), ('Buffer', True)]
         for inp, pinfo in variants:
             for n in ((0, 2, 3) if tier == 'quick' else range(0, maxn + 1)):
-                if tier == 'quick' and nm == 'meta_all' and n == 3:
+                if tier == 'quick' and nm in ('meta_all', 'nullable_sep_gather_plus', 'nullable_sep_rule') and n == 3:
                     continue
                 pre = ' and '.join(f'c{i} < 128' for i in range(n)) if nm.startswith('meta') else ''
                 spec = {'grammar': nm, 'program': nm, 'input': inp, 'parseinfo': pinfo, 'n': n, **gs}
